@@ -820,6 +820,9 @@ func ruleC15(c *Ctx, r *Report) {
 	// '$field' reference it meets as a value: a reference that is a direct member of a
 	// stage document ({$group: {_id: "$city"}}, {$max: "$f"}) is a value like any other
 	renamesIn := map[*ssa.Function]bool{}
+	nValueRenames := 0
+	ordOf := map[*ssa.Function]int{}
+	valueRenameOrd := func(f *ssa.Function) int { ordOf[f]++; return ordOf[f] }
 	for _, s := range p.sinks(p.Zone) {
 		hc, ok := peel(s.Val).(*ssa.Call)
 		if !ok || hc.Call.StaticCallee() != hn || (s.Kind != "set" && s.Kind != "store") {
@@ -837,7 +840,28 @@ func ruleC15(c *Ctx, r *Report) {
 		if hasDollar && hasFlag {
 			renamesIn[s.Fn] = true
 		}
+		// operators occur as keys only: whether a value is renamed must not be decided by
+		// looking the value up in the operator tables ("$type", "$date", "$size" are fields here)
+		byTable := ""
+		for _, a := range p.atomsAt(s.Instr.Block()) {
+			lc, isCall := a.X.(*ssa.Call)
+			if a.Kind != "ok" || a.Pol || !isCall {
+				continue
+			}
+			for _, arg := range lc.Call.Args {
+				for _, v := range append(varargValues(arg), arg) {
+					if v == hc.Call.Args[0] || (rootOf(v) != nil && rootOf(v) == rootOf(hc.Call.Args[0])) {
+						byTable = a.Name
+					}
+				}
+			}
+		}
+		nValueRenames++
+		r.Check(byTable == "", "C15-R3", fmt.Sprintf("%s:value-rename-not-decided-by-operator-table#%d", s.Fn.Name(), valueRenameOrd(s.Fn)), c.InstrPos(s.Instr),
+			"the reference is renamed whatever its spelling",
+			"a name met as a value is renamed only when "+byTable+"(value) finds no operator of that spelling: references to fields called like an operator or stage ('$type', '$date', '$size', '$count', '$position') stay in clear although the same fields are renamed as keys and in the plan summary")
 	}
+	r.Analysed["value_rename_sites"] = nValueRenames
 	var valueWalkers []*ssa.Function
 	if sw := c.stageWalkerFn(); sw != nil {
 		valueWalkers = append(valueWalkers, sw)
@@ -920,6 +944,29 @@ func ruleC15(c *Ctx, r *Report) {
 			r.Check(ok && v.Kind == "leaf" && t.LeafName(v) == "FieldName", "C15-R3", "table:"+name+"=FieldName", "src/operators.go",
 				"typed FieldName: renamed consistently with the keys that refer to it",
 				fmt.Sprintf("%s is %s: under --redactFieldNames the name stays in clear (or becomes the generic placeholder) while the $match / $sort keys that refer to it are renamed", name, map[bool]string{true: t.LeafName(v), false: "absent"}[ok]))
+		}
+	}
+
+	// the rename test asks the core table about the key alone (no parent context): every
+	// top-level key of that table is taken for an operator wherever it stands, so a key
+	// without '$' there is a user field name that can never be renamed
+	{
+		t := c.reconstructTables()
+		core := t.Globals["CoreOperators"]
+		if core == nil {
+			r.Undecided("C15-R3", "table:CoreOperators", "src/operators.go", "core operator table not reconstructed")
+		} else {
+			var bare []string
+			for _, k := range core.Keys {
+				if !strings.HasPrefix(k, "$") {
+					bare = append(bare, k)
+				}
+			}
+			sort.Strings(bare)
+			r.Analysed["core_table_top_level_keys"] = len(core.Keys)
+			r.Check(len(bare) == 0 && len(core.Keys) >= 100, "C15-R3", "table:CoreOperators:top-level-keys-are-operators", "src/operators.go",
+				fmt.Sprintf("%d top-level keys, all '$'-prefixed", len(core.Keys)),
+				fmt.Sprintf("top-level keys without '$' %v (of %d): the key-rename test looks the key up alone, so user fields with these names are taken for operators and stay in clear in filters, sort documents and $match / $sort stages while the plan summary renames them", bare, len(core.Keys)))
 		}
 	}
 
